@@ -440,6 +440,86 @@ fn echo_ops(rng: &mut Rng, shape: &[usize]) -> Vec<Op> {
 }
 
 pub fn gen_array_scenario(prop: Prop, rng: &mut Rng, tier: Tier) -> Scenario {
+    let mut scn = gen_array_scenario_inner(prop, rng, tier);
+    retarget_to_run_boundaries(rng, &mut scn);
+    scn
+}
+
+/// Ranks where the sorted lane changes value (ends of runs of equal elements)
+/// are where off-by-one errors around duplicates show: move some requests there.
+fn retarget_to_run_boundaries(rng: &mut Rng, scn: &mut Scenario) {
+    if scn.ops.is_empty() || scn.data.is_empty() {
+        return;
+    }
+    let names = ["select", "select_many", "quantile1", "quantiles1", "law_monotone", "law_sandwich", "law_permute", "law_relabel"];
+    if !scn.ops.iter().any(|o| names.contains(&o.name.as_str())) {
+        return;
+    }
+    let im = crate::minimise::index_map(scn);
+    let ty = scn.elem;
+    for k in 0..scn.ops.len() {
+        if !names.contains(&scn.ops[k].name.as_str()) {
+            continue;
+        }
+        let cells: Vec<usize> = match scn.ops[k].lane {
+            None if im.ndim() == 1 => im.iter().copied().collect(),
+            Some((a, l)) if a < im.ndim() => match im.lanes(ndarray::Axis(a)).into_iter().nth(l) {
+                Some(x) => x.to_vec(),
+                None => continue,
+            },
+            _ => continue,
+        };
+        let n = cells.len();
+        if n < 3 || !rng.chance(if n >= 512 { 2 } else { 1 }, 3) {
+            continue;
+        }
+        let mut vals: Vec<crate::elem::NumVal> = cells.iter().map(|&c| scn.data[c]).filter(|&r| !ty.is_missing_raw(r)).map(|r| crate::elem::num_of_raw(ty, r)).collect();
+        if vals.len() != n {
+            continue;
+        }
+        vals.sort_by(|a, b| match (a, b) {
+            (crate::elem::NumVal::I(x), crate::elem::NumVal::I(y)) => x.cmp(y),
+            (x, y) => x.as_f64().partial_cmp(&y.as_f64()).unwrap_or(std::cmp::Ordering::Equal),
+        });
+        let mut bounds: Vec<usize> = (1..n).filter(|&j| !vals[j].num_eq(vals[j - 1])).collect();
+        if bounds.is_empty() {
+            continue;
+        }
+        if bounds.len() > 64 {
+            rng.shuffle(&mut bounds);
+            bounds.truncate(64);
+        }
+        let pick = |rng: &mut Rng| -> usize {
+            let j = *rng.pick(&bounds);
+            (j + rng.below(3)).saturating_sub(1).min(n - 1)
+        };
+        let op = &mut scn.ops[k];
+        for x in op.idx.iter_mut() {
+            if (*x as u128) < n as u128 && rng.chance(1, 2) {
+                *x = pick(rng) as u64;
+            }
+        }
+        let m = (n - 1) as f64;
+        let sorted_qs = op.name == "law_monotone";
+        for q in op.qs.iter_mut() {
+            if (0.0..=1.0).contains(q) && rng.chance(1, 2) {
+                let base = pick(rng) as f64 / m;
+                *q = match rng.below(4) {
+                    0 => next_down(base),
+                    1 => next_up(base),
+                    _ => base,
+                }
+                .max(0.0)
+                .min(1.0);
+            }
+        }
+        if sorted_qs {
+            op.qs.sort_by(|a, b| a.partial_cmp(b).unwrap());
+        }
+    }
+}
+
+fn gen_array_scenario_inner(prop: Prop, rng: &mut Rng, tier: Tier) -> Scenario {
     let thorough = tier == Tier::Thorough;
     match prop {
         Prop::C02 => {
